@@ -69,7 +69,29 @@ fn nil_safe_compare(a: &dyn ValueView, b: &dyn ValueView) -> Option<cmp::Orderin
     } else if b.is_nil() {
         Some(cmp::Ordering::Less)
     } else {
-        ValueViewCmp::new(a).partial_cmp(&ValueViewCmp::new(b))
+        // Values of different kinds are not comparable.  Treating them as equal makes
+        // the comparison inconsistent (`0 < 1` but `0 == "a" == 1`), on which the
+        // standard sort may panic, so rank the kinds instead.
+        ValueViewCmp::new(a)
+            .partial_cmp(&ValueViewCmp::new(b))
+            .or_else(|| Some(kind_rank(a).cmp(&kind_rank(b))))
+    }
+}
+
+fn kind_rank(value: &dyn ValueView) -> u8 {
+    if value.is_scalar() {
+        match value.type_name() {
+            "whole number" | "fractional number" => 0,
+            "boolean" => 1,
+            "date" | "date time" => 2,
+            _ => 3,
+        }
+    } else if value.is_array() {
+        4
+    } else if value.is_object() {
+        5
+    } else {
+        6
     }
 }
 
